@@ -102,8 +102,8 @@ def conclude(prop, tier, seed, kunits, kres, kinfo, vunits, vres, vinfo, known, 
                 undecided.append(f"{tag}: timeout")
         elif st_ in ("undecided", "missing"):
             why = e["unsupported"] or e["undetermined"] or e["covers_unsat"] or [st_]
-            solver_died = (not e["unsupported"] and not e["covers_unsat"] and e["undetermined"]
-                           and all("[Error]" in u for u in e["undetermined"]))
+            solver_died = (not e["unsupported"] and e["undetermined"]
+                           and all("[Error]" in u for u in e["undetermined"] + e["covers_unsat"]))
             # CBMC reports status ERROR for a property when the solver itself gave up (out of memory under the address-space cap):
             # resource exhaustion, like a timeout
             if e.get("gate") == "yes" and (e["checks"] == 0 or solver_died):
